@@ -3,4 +3,5 @@
 #![allow(dead_code)]
 pub mod cbor_gen;
 pub mod hosttargets;
+pub mod livewal;
 pub mod targets;
